@@ -2,27 +2,37 @@
   C13 — Face latitude–longitude bounds enclose the face and are tight.
 
   Theorems about the transcription `Model/Bounds.lean` for EVERY sequence of inserted points,
-  EVERY list of edges and EVERY great-circle arc.
+  EVERY list of edges and EVERY great-circle arc shorter than half a turn.
 
   §A  the box (any linearly ordered field): the periodic longitude interval and the latitude
       interval only grow and contain the inserted point (`insert_contains`, `insert_grows`), hence
-      the box contains every point ever inserted (`box_contains_all_inserted`); points spanning
-      less than half a turn without wrapping give the shortest covering interval
-      (`insert_minimal_partial`);
+      the box contains every point ever inserted (`box_contains_all_inserted`); longitudes inside a
+      non-wrapping window narrower than half a turn give exactly `[min, max]`, the shortest
+      covering interval (`insert_minimal_partial`; the wrapping window is tested, not proved);
   §B  the loops: the REPAIRED normal-face loop encloses every corner and both extremes of every
-      edge (`lat_encloses_nodes`); the AS-IS `if/elif/else` chain does not (`asis_skips_corner`,
-      decided on a concrete triangle); the AS-IS pole loop stretches the longitude interval to the
-      pole corner's nominal longitude, the repaired one does not (`asis_pole_corner_longitude`,
-      `pole_corner_longitude_ok`); a face flagged as enclosing a pole gets that pole's latitude
-      and, when no edge touches the pole, the full circle (`pole_face`); the as-is parity count
-      flags an equatorial face and misses a polar cap with a corner on the reference meridian
-      (`asis_false_pole`, `asis_pole_missed`, decided over `Int`);
+      edge (`lat_encloses_nodes`, `lat_encloses_second_nodes`); the AS-IS `if/elif/else` chain does
+      not (`asis_skips_corner`, decided on a concrete triangle); the AS-IS pole loop stretches the
+      longitude interval to the pole corner's nominal longitude, the repaired one does not
+      (`asis_pole_corner_longitude`); both pole loops enclose every corner
+      (`pole_loop_encloses_nodes`); a face FLAGGED as enclosing a pole gets that pole's latitude
+      and, when no edge touches the pole, the full circle (`pole_face_partial`); the flag itself —
+      the parity count of `_pole_point_inside_polygon` — is wrong on an equatorial face around
+      (lon 0, lat 0) and on a polar cap with a corner on the reference meridian
+      (`asis_false_pole`, `asis_pole_missed`, decided over `Int`; known findings);
   §C  the arc (ordered field / ℝ): `circle_apex_bound` (Cauchy–Schwarz), the code's `d_a_max` is
       THE stationary parameter (`extreme_param_stationary`), the chord point at `d_a_max` attains
       the great circle's bound (`apex_attains_bound`), therefore dominates every point of the
       circle (`arc_below_apex`); without an interior apex the end points dominate every arc point
-      (`arc_le_endpoints`, `arc_ge_endpoints`); together: the exact-arithmetic
-      `extreme_gca_latitude` encloses EVERY point of the arc (`extreme_encloses_arc`).
+      (`arc_le_endpoints`, `arc_ge_endpoints`); together: the exact-arithmetic transcription of
+      `extreme_gca_latitude` encloses EVERY point of the arc (`extreme_encloses_arc`), and the
+      repaired normal-face loop fed with it encloses every point of every edge
+      (`lat_encloses_every_arc_point`).
+
+  Not proved (decided by the driver's sampling oracle on every generated face): that the parity
+  flag agrees with "the pole is strictly inside" (it does not always, see above); minimality of
+  the longitude interval when the face wraps through longitude 0; tightness by attainment (proved
+  for the latitude bounds of normal faces by `lat_bounds_attained`; pole faces and the longitude
+  ends are tested); IEEE rounding and the `ERROR_TOLERANCE` clip / pole snap of the float code.
 -/
 import Mathlib.Analysis.SpecialFunctions.Sqrt
 import Mathlib.Tactic.Ring
@@ -271,5 +281,962 @@ example : [(40 : ℚ), 10, 25].foldl (fun q x => growLon 360 (some q) x) (30, 30
   norm_num
 
 end box
+
+/-! ## §B the loops -/
+section loops
+variable {K : Type} [Field K] [LinearOrder K] [IsStrictOrderedRing K]
+
+theorem insert_at_grows_lat (c : Consts K) (b : Box K) (la lo y : K) (h : b.HasLat y) :
+    (insertPt c b (.at la lo)).HasLat y := by
+  obtain ⟨⟨l, u⟩, hb, hin⟩ := h
+  refine ⟨_, rfl, ?_⟩
+  rw [hb]; exact growLat_grows l u la y hin
+
+theorem insert_at_has_lat (c : Consts K) (b : Box K) (la lo : K) :
+    (insertPt c b (.at la lo)).HasLat la := (insert_contains c b la lo).1
+
+theorem insert_at_has_lon (c : Consts K) (b : Box K) (la lo : K) :
+    (insertPt c b (.at la lo)).HasLon (c.norm lo) := (insert_contains c b la lo).2
+
+/-- one repaired step keeps what was covered -/
+theorem stepNormal_grows (c : Consts K) (b : Box K) (e : ES K) (la lo : K)
+    (h : b.HasLat la ∧ b.HasLon lo) :
+    (stepNormal c b e).HasLat la ∧ (stepNormal c b e).HasLon lo := by
+  unfold stepNormal
+  exact ⟨insert_at_grows_lat _ _ _ _ _ (insert_at_grows_lat _ _ _ _ _ (insert_at_grows_lat _ _ _ _ _ h.1)),
+    insert_grows_lon _ _ _ _ (insert_grows_lon _ _ _ _ (insert_grows_lon _ _ _ _ h.2))⟩
+
+/-- one repaired step covers the edge's first corner and both extremes -/
+theorem stepNormal_covers (c : Consts K) (b : Box K) (e : ES K) :
+    ((stepNormal c b e).HasLat e.lat1 ∧ (stepNormal c b e).HasLon (c.norm e.lon1)) ∧
+    (stepNormal c b e).HasLat e.mx ∧ (stepNormal c b e).HasLat e.mn := by
+  unfold stepNormal
+  refine ⟨⟨?_, ?_⟩, ?_, ?_⟩
+  · exact insert_at_grows_lat _ _ _ _ _ (insert_at_grows_lat _ _ _ _ _ (insert_at_has_lat _ _ _ _))
+  · exact insert_grows_lon _ _ _ _ (insert_grows_lon _ _ _ _ (insert_at_has_lon _ _ _ _))
+  · exact insert_at_grows_lat _ _ _ _ _ (insert_at_has_lat _ _ _ _)
+  · exact insert_at_has_lat _ _ _ _
+
+theorem foldl_stepNormal_grows (c : Consts K) (es : List (ES K)) (b : Box K) (la lo : K)
+    (h : b.HasLat la ∧ b.HasLon lo) :
+    (es.foldl (stepNormal c) b).HasLat la ∧ (es.foldl (stepNormal c) b).HasLon lo := by
+  induction es generalizing b with
+  | nil => exact h
+  | cons e es ih => exact ih _ (stepNormal_grows c b e la lo h)
+
+theorem foldl_stepNormal_grows_lat (c : Consts K) (es : List (ES K)) (b : Box K) (la : K)
+    (h : b.HasLat la) : (es.foldl (stepNormal c) b).HasLat la := by
+  induction es generalizing b with
+  | nil => exact h
+  | cons e es ih =>
+    refine ih _ ?_
+    unfold stepNormal
+    exact insert_at_grows_lat _ _ _ _ _ (insert_at_grows_lat _ _ _ _ _ (insert_at_grows_lat _ _ _ _ _ h))
+
+theorem foldl_stepNormal_covers (c : Consts K) (es : List (ES K)) (b : Box K) (e : ES K)
+    (he : e ∈ es) :
+    (es.foldl (stepNormal c) b).Has e.lat1 (c.norm e.lon1) ∧
+    (es.foldl (stepNormal c) b).HasLat e.mx ∧ (es.foldl (stepNormal c) b).HasLat e.mn := by
+  induction es generalizing b with
+  | nil => cases he
+  | cons x xs ih =>
+    rcases List.mem_cons.mp he with h | h
+    · subst h
+      have hc := stepNormal_covers c b e
+      simp only [List.foldl_cons]
+      exact ⟨foldl_stepNormal_grows c xs _ _ _ hc.1,
+        foldl_stepNormal_grows_lat c xs _ _ hc.2.1, foldl_stepNormal_grows_lat c xs _ _ hc.2.2⟩
+    · simp only [List.foldl_cons]
+      exact ih _ h
+
+/-- **lat_encloses_nodes** (repaired normal-face loop, ANY list of edges): for every edge of the
+    face, its first corner `(lat, lon)`, the arc maximum and the arc minimum are inside the final
+    box.  Every corner of a face is the first corner of one of its edges, so every corner latitude
+    lies in `[lat_min, lat_max]` and every corner longitude in the longitude interval. -/
+theorem lat_encloses_nodes (c : Consts K) (close : K → K → Bool) (es : List (ES K)) (e : ES K)
+    (he : e ∈ es) :
+    (normalLoop c close .repaired es).Has e.lat1 (c.norm e.lon1) ∧
+    (normalLoop c close .repaired es).HasLat e.mx ∧
+    (normalLoop c close .repaired es).HasLat e.mn :=
+  foldl_stepNormal_covers c es Box.empty e he
+
+/-- second corners too, for a closed ring of edges (each edge ends where another one starts) -/
+theorem lat_encloses_second_nodes (c : Consts K) (close : K → K → Bool) (es : List (ES K))
+    (hring : ∀ e ∈ es, ∃ e' ∈ es, e'.lat1 = e.lat2 ∧ e'.lon1 = e.lon2) (e : ES K) (he : e ∈ es) :
+    (normalLoop c close .repaired es).Has e.lat2 (c.norm e.lon2) := by
+  obtain ⟨e', he', h1, h2⟩ := hring e he
+  rw [← h1, ← h2]
+  exact (lat_encloses_nodes c close es e' he').1
+
+/-- non-vacuity: a triangle whose lowest corner starts a poleward-bulging edge (degrees, ℚ) -/
+example : (normalLoop (K := ℚ) ⟨90, 360, id⟩ (fun a b => a == b) .repaired
+    [⟨10, 0, 12, 40, 20, 10, false, false⟩, ⟨12, 40, 30, 20, 30, 12, false, false⟩,
+     ⟨30, 20, 10, 0, 30, 10, false, false⟩]).HasLat 10 :=
+  (lat_encloses_nodes _ _ _ ⟨10, 0, 12, 40, 20, 10, false, false⟩ (by simp)).1.1
+
+/-! ### tightness by attainment (repaired normal-face loop) -/
+
+/-- the three points the repaired loop inserts for one edge -/
+def pts3 (e : ES K) : List (K × K) := [(e.lat1, e.lon1), (e.mx, e.lon1), (e.mn, e.lon1)]
+def insAt (c : Consts K) (b : Box K) (p : K × K) : Box K := insertPt c b (.at p.1 p.2)
+
+theorem normalLoop_eq_flat (c : Consts K) (es : List (ES K)) (b : Box K) :
+    es.foldl (stepNormal c) b = (es.flatMap pts3).foldl (insAt c) b := by
+  induction es generalizing b with
+  | nil => rfl
+  | cons e es ih =>
+    simp only [List.foldl_cons, List.flatMap_cons, List.foldl_append]
+    rw [ih]; rfl
+
+theorem growLat_attained (o : Option (K × K)) (x : K) :
+    ((growLat o x).1 = x ∨ ∃ q, o = some q ∧ (growLat o x).1 = q.1) ∧
+    ((growLat o x).2 = x ∨ ∃ q, o = some q ∧ (growLat o x).2 = q.2) := by
+  rcases o with _ | ⟨lo, hi⟩
+  · exact ⟨Or.inl rfl, Or.inl rfl⟩
+  · constructor
+    · by_cases hx : x < lo
+      · exact Or.inl (by show minK lo x = x; unfold minK; rw [if_pos hx])
+      · exact Or.inr ⟨(lo, hi), rfl, by show minK lo x = lo; unfold minK; rw [if_neg hx]⟩
+    · by_cases hx : hi < x
+      · exact Or.inl (by show maxK hi x = x; unfold maxK; rw [if_pos hx])
+      · exact Or.inr ⟨(lo, hi), rfl, by show maxK hi x = hi; unfold maxK; rw [if_neg hx]⟩
+
+theorem foldl_insAt_attained (c : Consts K) (pts : List (K × K)) (b : Box K) (lo hi : K)
+    (h : (pts.foldl (insAt c) b).lat = some (lo, hi)) :
+    (lo ∈ pts.map Prod.fst ∨ ∃ q, b.lat = some q ∧ lo = q.1) ∧
+    (hi ∈ pts.map Prod.fst ∨ ∃ q, b.lat = some q ∧ hi = q.2) := by
+  induction pts generalizing b with
+  | nil => exact ⟨Or.inr ⟨(lo, hi), h, rfl⟩, Or.inr ⟨(lo, hi), h, rfl⟩⟩
+  | cons p ps ih =>
+    have ih' := ih (insAt c b p) h
+    have hg := growLat_attained b.lat p.1
+    constructor
+    · rcases ih'.1 with h1 | ⟨q, hq, h1⟩
+      · exact Or.inl (by simp only [List.map_cons, List.mem_cons]; exact Or.inr h1)
+      · have hq' : q = growLat b.lat p.1 := by
+          have : (insAt c b p).lat = some (growLat b.lat p.1) := rfl
+          rw [this] at hq; exact (Option.some.inj hq).symm
+        rcases hg.1 with h2 | ⟨q0, hq0, h2⟩
+        · exact Or.inl (by simp only [List.map_cons, List.mem_cons]; exact Or.inl (by rw [h1, hq', h2]))
+        · exact Or.inr ⟨q0, hq0, by rw [h1, hq', h2]⟩
+    · rcases ih'.2 with h1 | ⟨q, hq, h1⟩
+      · exact Or.inl (by simp only [List.map_cons, List.mem_cons]; exact Or.inr h1)
+      · have hq' : q = growLat b.lat p.1 := by
+          have : (insAt c b p).lat = some (growLat b.lat p.1) := rfl
+          rw [this] at hq; exact (Option.some.inj hq).symm
+        rcases hg.2 with h2 | ⟨q0, hq0, h2⟩
+        · exact Or.inl (by simp only [List.map_cons, List.mem_cons]; exact Or.inl (by rw [h1, hq', h2]))
+        · exact Or.inr ⟨q0, hq0, by rw [h1, hq', h2]⟩
+
+theorem mem_flat_pts3 (es : List (ES K)) (x : K) (h : x ∈ (es.flatMap pts3).map Prod.fst) :
+    ∃ e ∈ es, x = e.lat1 ∨ x = e.mx ∨ x = e.mn := by
+  obtain ⟨p, hp, rfl⟩ := List.mem_map.mp h
+  obtain ⟨e, he, hpe⟩ := List.mem_flatMap.mp hp
+  refine ⟨e, he, ?_⟩
+  simp only [pts3, List.mem_cons, List.not_mem_nil, or_false] at hpe
+  rcases hpe with rfl | rfl | rfl
+  · exact Or.inl rfl
+  · exact Or.inr (Or.inl rfl)
+  · exact Or.inr (Or.inr rfl)
+
+/-- **lat_bounds_attained** (tightness of the repaired normal-face loop, ANY list of edges): each
+    latitude bound IS one of the inserted latitudes — a corner's latitude or an arc extreme, which
+    `extreme_gca_latitude` takes from a point of the arc.  No slack is ever added. -/
+theorem lat_bounds_attained (c : Consts K) (close : K → K → Bool) (es : List (ES K)) (lo hi : K)
+    (h : (normalLoop c close .repaired es).lat = some (lo, hi)) :
+    (∃ e ∈ es, lo = e.lat1 ∨ lo = e.mx ∨ lo = e.mn) ∧
+    (∃ e ∈ es, hi = e.lat1 ∨ hi = e.mx ∨ hi = e.mn) := by
+  have h' : ((es.flatMap pts3).foldl (insAt c) Box.empty).lat = some (lo, hi) := by
+    rw [← normalLoop_eq_flat]; exact h
+  have := foldl_insAt_attained c _ Box.empty lo hi h'
+  constructor
+  · rcases this.1 with h1 | ⟨q, hq, _⟩
+    · exact mem_flat_pts3 es lo h1
+    · cases hq
+  · rcases this.2 with h1 | ⟨q, hq, _⟩
+    · exact mem_flat_pts3 es hi h1
+    · cases hq
+
+end loops
+
+/-! ### as-is counterexamples (decided over `Int`; latitudes / longitudes in degrees) -/
+
+def cI : Consts Int := ⟨90, 360, id⟩
+def eqI (a b : Int) : Bool := a == b
+
+/-- a triangle `A(10°) → B(12°) → C(30°)`: the edge `A → B` bulges poleward to 20° -/
+def asisEdges : List (ES Int) :=
+  [⟨10, 0, 12, 40, 20, 10, false, false⟩, ⟨12, 40, 30, 20, 30, 12, false, false⟩,
+   ⟨30, 20, 10, 0, 30, 10, false, false⟩]
+
+/-- **asis_skips_corner**: the `if / elif / else` chain inserts the arc maximum of `A → B` INSTEAD
+    of the corner `A`, no other edge inserts `A`, and `lat_min` becomes 12° > 10°; the repaired loop
+    gives `[10°, 30°]`. -/
+theorem asis_skips_corner :
+    (normalLoop cI eqI .asIs asisEdges).lat = some (12, 30) ∧
+    ¬ (normalLoop cI eqI .asIs asisEdges).HasLat 10 ∧
+    (normalLoop cI eqI .repaired asisEdges).lat = some (10, 30) := by
+  have h1 : (normalLoop cI eqI .asIs asisEdges).lat = some (12, 30) := by decide
+  refine ⟨h1, ?_, by decide⟩
+  rintro ⟨p, hp, hin⟩
+  rw [h1] at hp
+  cases hp
+  exact absurd hin.1 (by decide)
+
+/-- a triangle with a corner on the north pole whose nominal longitude is 0°; the other corners
+    sit at 100°E and 140°E -/
+def poleCornerEdges : List (ES Int) :=
+  [⟨90, 0, 60, 100, 90, 60, true, true⟩, ⟨60, 100, 60, 140, 65, 60, false, false⟩,
+   ⟨60, 140, 90, 0, 90, 60, false, true⟩]
+
+/-- **asis_pole_corner_longitude**: the as-is pole loop stretches the longitude interval to the
+    pole corner's nominal longitude (`[0°, 140°]`); the repaired loop reports `[100°, 140°]`. -/
+theorem asis_pole_corner_longitude :
+    (poleLoop cI .asIs true poleCornerEdges).lon = some (0, 140) ∧
+    (poleLoop cI .repaired true poleCornerEdges).lon = some (100, 140) ∧
+    (poleLoop cI .repaired true poleCornerEdges).lat = some (60, 90) := by decide
+
+/-- exact direction vectors: "same point" = same direction -/
+def sameDir (p q : V3 Int) : Bool :=
+  let c := cross p q
+  c.x == 0 && c.y == 0 && c.z == 0 && decide (0 < dot p q)
+
+def fnI : Fn Int :=
+  { sqrt := id, asin := id, abs := fun x => if x < 0 then -x else x, close := eqI,
+    tol := 0, eps := 0, normalize := id, samePt := sameDir }
+
+def faceI (l : List (V3 Int)) : List (Edge Int) :=
+  (Oracle.cyc l).map fun e => ⟨e.1, e.2, 0, 0, 0, 0⟩
+
+/-- the pole is strictly inside a counter-clockwise convex face: left of every edge -/
+def poleLeftOfAll (north : Bool) (l : List (V3 Int)) : Bool :=
+  (Oracle.cyc l).all fun e => decide (0 < dot (cross e.1 e.2) (poleVec north))
+
+/-- a polar cap with a corner on the reference meridian (longitude 0) -/
+def capOnMeridian : List (V3 Int) := [⟨2, 0, 1⟩, ⟨-1, 2, 1⟩, ⟨-1, -2, 1⟩]
+/-- the same cap turned a little -/
+def capOffMeridian : List (V3 Int) := [⟨2, 1, 1⟩, ⟨-1, 2, 1⟩, ⟨-1, -2, 1⟩]
+
+/-- **asis_pole_missed**: the north pole is strictly inside the cap, but the only crossing of the
+    reference arc is at a corner, which `_check_intersection` counts as 0 — the pole is not
+    detected; turning the cap off the meridian it is. -/
+theorem asis_pole_missed :
+    poleLeftOfAll true capOnMeridian = true ∧ poleInside fnI true (faceI capOnMeridian) = false ∧
+    poleLeftOfAll true capOffMeridian = true ∧ poleInside fnI true (faceI capOffMeridian) = true := by
+  decide +kernel
+
+/-- a small triangle on the equator around the reference point `(1, 0, 0)` -/
+def equatorialFace : List (V3 Int) := [⟨100, 9, -2⟩, ⟨100, -9, 6⟩, ⟨100, 5, -5⟩]
+
+/-- **asis_false_pole**: no pole is inside the equatorial triangle, yet the "Equator" branch
+    (north edges against the northern half of the reference meridian, south edges against the
+    southern half) counts an odd number of crossings for both poles. -/
+theorem asis_false_pole :
+    poleLeftOfAll true equatorialFace = false ∧ poleLeftOfAll false equatorialFace = false ∧
+    location (faceI equatorialFace) = .equator ∧
+    poleInside fnI true (faceI equatorialFace) = true ∧
+    poleInside fnI false (faceI equatorialFace) = true := by
+  decide +kernel
+
+section poleface
+variable {K : Type} [Field K] [LinearOrder K] [IsStrictOrderedRing K]
+
+theorem setHi_lat (b : Box K) (v lo hi : K) (h : b.lat = some (lo, hi)) :
+    (b.setHi v).lat = some (lo, v) := by simp [Box.setHi, h]
+theorem setLo_lat (b : Box K) (v lo hi : K) (h : b.lat = some (lo, hi)) :
+    (b.setLo v).lat = some (v, hi) := by simp [Box.setLo, h]
+
+/-- after one iteration of the pole loop the pole-side latitude bound is the pole's latitude -/
+theorem stepPole_lat (c : Consts K) (v : Variant) (north : Bool) (st : Box K × Bool) (e : ES K) :
+    ∃ lo hi, (stepPole c v north st e).1.lat = some (lo, hi) ∧
+      (if north then hi = c.halfPi else lo = -c.halfPi) := by
+  unfold stepPole
+  cases north
+  · simp only [Bool.false_eq_true, if_false]
+    refine ⟨_, _, setLo_lat _ _ _ _ rfl, rfl⟩
+  · simp only [if_true]
+    refine ⟨_, _, setHi_lat _ _ _ _ rfl, rfl⟩
+
+theorem foldl_stepPole_centre (c : Consts K) (v : Variant) (north : Bool) (es : List (ES K))
+    (b : Box K) (hno : ∀ e ∈ es, e.n1Pole = false ∧ e.onEdge = false) :
+    (es.foldl (stepPole c v north) (b, true)).2 = true := by
+  induction es generalizing b with
+  | nil => rfl
+  | cons e es ih =>
+    have h := hno e List.mem_cons_self
+    simp only [List.foldl_cons]
+    have : stepPole c v north (b, true) e = ((stepPole c v north (b, true) e).1, true) := by
+      unfold stepPole; simp [h.1, h.2]
+    rw [this]
+    exact ih _ (fun e he => hno e (List.mem_cons_of_mem _ he))
+
+theorem poleLoop_lat (c : Consts K) (v : Variant) (north : Bool) (es : List (ES K)) :
+    (poleLoop c v north es).lat = (es.foldl (stepPole c v north) (Box.empty, true)).1.lat := by
+  unfold poleLoop
+  by_cases h : (es.foldl (stepPole c v north) (Box.empty, true)).2 = true <;> simp [h]
+
+theorem poleLoop_lon_centre (c : Consts K) (v : Variant) (north : Bool) (es : List (ES K))
+    (h : (es.foldl (stepPole c v north) (Box.empty, true)).2 = true) :
+    (poleLoop c v north es).lon = some (0, c.twoPi) := by
+  unfold poleLoop; simp [h]
+
+theorem poleLoop_not_centre (c : Consts K) (v : Variant) (north : Bool) (es : List (ES K))
+    (h : ¬ (es.foldl (stepPole c v north) (Box.empty, true)).2 = true) :
+    poleLoop c v north es = (es.foldl (stepPole c v north) (Box.empty, true)).1 := by
+  unfold poleLoop; simp [h]
+
+/-- **pole_face_partial**: a face whose parity count flags a pole (`hasN ∨ hasS`) reports that
+    pole's latitude as the bound on that side, and — when no edge touches the pole (no corner on
+    it, no edge through it) — the full longitude circle `[0, 2π]`.
+    Full statement (property): the same with "the pole lies strictly inside the face" in place of
+    the flag.  The flag itself is NOT proved to agree with the geometry — it does not:
+    `asis_pole_missed`, `asis_false_pole` (known findings); the agreement is tested on every
+    generated face against the orientation determinants. -/
+theorem pole_face_partial (c : Consts K) (close : K → K → Bool) (v : Variant) (hasN hasS : Bool)
+    (es : List (ES K)) (hne : es ≠ []) (hflag : hasN = true ∨ hasS = true) :
+    (∃ lo hi, (runFace c close v hasN hasS es).lat = some (lo, hi) ∧
+       (if hasN then hi = c.halfPi else lo = -c.halfPi)) ∧
+    ((∀ e ∈ es, e.n1Pole = false ∧ e.onEdge = false) →
+       (runFace c close v hasN hasS es).lon = some (0, c.twoPi)) := by
+  have hb : (hasN || hasS) = true := by rcases hflag with h | h <;> simp [h]
+  unfold runFace
+  rw [if_pos hb]
+  constructor
+  · rw [poleLoop_lat]
+    obtain ⟨init, last, rfl⟩ := (List.eq_nil_or_concat es).resolve_left hne
+    rw [List.concat_eq_append, List.foldl_append]
+    simp only [List.foldl_cons, List.foldl_nil]
+    exact stepPole_lat c v hasN (init.foldl (stepPole c v hasN) (Box.empty, true)) last
+  · intro hno
+    exact poleLoop_lon_centre c v hasN es (foldl_stepPole_centre c v hasN es Box.empty hno)
+
+/-- non-vacuity: a square cap around the north pole (degrees) -/
+example : (runFace (K := ℚ) ⟨90, 360, id⟩ (fun a b => a == b) .repaired true false
+    [⟨60, 0, 60, 90, 69, 60, false, false⟩, ⟨60, 90, 60, 180, 69, 60, false, false⟩,
+     ⟨60, 180, 60, 270, 69, 60, false, false⟩, ⟨60, 270, 60, 0, 69, 60, false, false⟩]).lon
+    = some (0, 360) :=
+  (pole_face_partial _ _ _ _ _ _ (by simp) (Or.inl rfl)).2 (by simp)
+
+theorem setHi_grows (b : Box K) (v y : K) (hy : y ≤ v) (h : b.HasLat y) : (b.setHi v).HasLat y := by
+  obtain ⟨⟨lo, hi⟩, hb, hin⟩ := h
+  exact ⟨(lo, v), by simp [Box.setHi, hb], ⟨hin.1, hy⟩⟩
+theorem setLo_grows (b : Box K) (v y : K) (hy : v ≤ y) (h : b.HasLat y) : (b.setLo v).HasLat y := by
+  obtain ⟨⟨lo, hi⟩, hb, hin⟩ := h
+  exact ⟨(v, hi), by simp [Box.setLo, hb], ⟨hy, hin.2⟩⟩
+theorem setHi_lon (b : Box K) (v y : K) (h : b.HasLon y) : (b.setHi v).HasLon y := h
+theorem setLo_lon (b : Box K) (v y : K) (h : b.HasLon y) : (b.setLo v).HasLon y := h
+
+/-- the longitude the pole loop uses for an edge's first corner -/
+def lonUsed (v : Variant) (e : ES K) : K :=
+  match v with
+  | .asIs => e.lon1
+  | .repaired => if e.n1Pole then e.lon2 else e.lon1
+
+theorem stepPole_grows (c : Consts K) (v : Variant) (north : Bool) (st : Box K × Bool) (e : ES K)
+    (la : K) (hy : -c.halfPi ≤ la ∧ la ≤ c.halfPi) (h : st.1.HasLat la) :
+    (stepPole c v north st e).1.HasLat la := by
+  unfold stepPole
+  have h0 : (if (e.n1Pole || e.onEdge) = true then insertPt c st.1 (.pole north) else st.1).HasLat la := by
+    split
+    · exact insert_grows_lat c _ _ la hy h
+    · exact h
+  cases north
+  · simp only [Bool.false_eq_true, if_false]
+    exact setLo_grows _ _ _ hy.1 (insert_at_grows_lat _ _ _ _ _ (insert_at_grows_lat _ _ _ _ _ h0))
+  · simp only [if_true]
+    exact setHi_grows _ _ _ hy.2 (insert_at_grows_lat _ _ _ _ _ (insert_at_grows_lat _ _ _ _ _ h0))
+
+theorem stepPole_grows_lon (c : Consts K) (v : Variant) (north : Bool) (st : Box K × Bool) (e : ES K)
+    (lo : K) (h : st.1.HasLon lo) : (stepPole c v north st e).1.HasLon lo := by
+  unfold stepPole
+  have h0 : (if (e.n1Pole || e.onEdge) = true then insertPt c st.1 (.pole north) else st.1).HasLon lo := by
+    split
+    · exact insert_grows_lon c _ _ lo h
+    · exact h
+  cases north
+  · simp only [Bool.false_eq_true, if_false]
+    exact setLo_lon _ _ _ (insert_grows_lon _ _ _ _ (insert_grows_lon _ _ _ _ h0))
+  · simp only [if_true]
+    exact setHi_lon _ _ _ (insert_grows_lon _ _ _ _ (insert_grows_lon _ _ _ _ h0))
+
+theorem stepPole_covers (c : Consts K) (v : Variant) (north : Bool) (st : Box K × Bool) (e : ES K)
+    (hy : -c.halfPi ≤ e.lat1 ∧ e.lat1 ≤ c.halfPi) :
+    (stepPole c v north st e).1.HasLat e.lat1 ∧
+    (stepPole c v north st e).1.HasLon (c.norm (lonUsed v e)) := by
+  unfold stepPole
+  cases north
+  · simp only [Bool.false_eq_true, if_false]
+    refine ⟨setLo_grows _ _ _ hy.1 (insert_at_grows_lat _ _ _ _ _ ?_),
+      setLo_lon _ _ _ (insert_grows_lon _ _ _ _ ?_)⟩
+    · exact insert_at_has_lat _ _ _ _
+    · cases v <;> exact insert_at_has_lon _ _ _ _
+  · simp only [if_true]
+    refine ⟨setHi_grows _ _ _ hy.2 (insert_at_grows_lat _ _ _ _ _ ?_),
+      setHi_lon _ _ _ (insert_grows_lon _ _ _ _ ?_)⟩
+    · exact insert_at_has_lat _ _ _ _
+    · cases v <;> exact insert_at_has_lon _ _ _ _
+
+/-- **pole_loop_encloses_nodes** (both variants, ANY list of edges): every corner latitude is in
+    `[lat_min, lat_max]`, and the longitude used for the corner is in the longitude interval
+    (`[0, 2π]` contains every normalised longitude). -/
+theorem pole_loop_encloses_nodes (c : Consts K) (v : Variant) (north : Bool) (es : List (ES K))
+    (hnorm : ∀ x, 0 ≤ c.norm x ∧ c.norm x ≤ c.twoPi) (h2pi : 0 ≤ c.twoPi)
+    (e : ES K) (he : e ∈ es) (hy : -c.halfPi ≤ e.lat1 ∧ e.lat1 ≤ c.halfPi) :
+    (poleLoop c v north es).HasLat e.lat1 ∧ (poleLoop c v north es).HasLon (c.norm (lonUsed v e)) := by
+  have key : ∀ (st : Box K × Bool),
+      (es.foldl (stepPole c v north) st).1.HasLat e.lat1 ∧
+      (es.foldl (stepPole c v north) st).1.HasLon (c.norm (lonUsed v e)) := by
+    induction es with
+    | nil => cases he
+    | cons x xs ih =>
+      intro st
+      rcases List.mem_cons.mp he with h | h
+      · subst h
+        simp only [List.foldl_cons]
+        have hc := stepPole_covers c v north st e hy
+        generalize stepPole c v north st e = st' at hc
+        clear ih he
+        induction xs generalizing st' with
+        | nil => exact hc
+        | cons y ys ih2 =>
+          simp only [List.foldl_cons]
+          exact ih2 _ ⟨stepPole_grows c v north st' y _ hy hc.1, stepPole_grows_lon c v north st' y _ hc.2⟩
+      · simp only [List.foldl_cons]
+        exact ih h _
+  have hk := key (Box.empty, true)
+  by_cases hc : (es.foldl (stepPole c v north) (Box.empty, true)).2 = true
+  · refine ⟨?_, ⟨(0, c.twoPi), poleLoop_lon_centre c v north es hc, ?_⟩⟩
+    · obtain ⟨p, hp, hin⟩ := hk.1
+      exact ⟨p, by rw [poleLoop_lat]; exact hp, hin⟩
+    · unfold InLon
+      rw [if_pos h2pi]
+      exact hnorm _
+  · rw [poleLoop_not_centre c v north es hc]
+    exact hk
+
+end poleface
+
+/-! ## §C the arc -/
+section arc
+variable {K : Type} [Field K] [LinearOrder K] [IsStrictOrderedRing K]
+
+/-- **circle_apex_bound** (Cauchy–Schwarz): on the great circle with unit normal `n`, every unit
+    vector `p ⟂ n` has `p_z² ≤ 1 − n_z²` — a global bound for the apex value. -/
+theorem circle_apex_bound (n p : V3 K) (hn : dot n n = 1) (hp : dot p p = 1) (ho : dot p n = 0) :
+    p.z ^ 2 ≤ 1 - n.z ^ 2 := by
+  obtain ⟨nx, ny, nz⟩ := n
+  obtain ⟨px, py, pz⟩ := p
+  simp only [dot] at hn hp ho ⊢
+  have key : 1 - nz ^ 2 - pz ^ 2
+      = (nz * nx + pz * px) ^ 2 + (nz * ny + pz * py) ^ 2 + (1 - nz ^ 2 - pz ^ 2) ^ 2 := by
+    linear_combination (-(nz ^ 2)) * hn - pz ^ 2 * hp - 2 * nz * pz * ho
+  have : 0 ≤ 1 - nz ^ 2 - pz ^ 2 := by rw [key]; positivity
+  linarith
+
+example : ((0 : ℚ)) ^ 2 ≤ 1 - (1 : ℚ) ^ 2 :=
+  circle_apex_bound (⟨0, 0, 1⟩ : V3 ℚ) ⟨1, 0, 0⟩ (by simp [dot]) (by simp [dot]) (by simp [dot])
+
+/-- homogeneous form (no normalisation): for ANY normal `n` and ANY `p ⟂ n`,
+    `p_z² ‖n‖² ≤ ‖p‖² (‖n‖² − n_z²)`; the defect is the square of `(n × p)_z`. -/
+theorem circle_bound_defect (n p : V3 K) (ho : dot n p = 0) :
+    dot p p * (dot n n - n.z ^ 2) - p.z ^ 2 * dot n n = (cross n p).z ^ 2 := by
+  obtain ⟨nx, ny, nz⟩ := n
+  obtain ⟨px, py, pz⟩ := p
+  simp only [dot, cross] at ho ⊢
+  linear_combination (nx * px + ny * py - nz * pz) * ho
+
+theorem circle_bound_hom (n p : V3 K) (ho : dot n p = 0) :
+    p.z ^ 2 * dot n n ≤ dot p p * (dot n n - n.z ^ 2) := by
+  have := circle_bound_defect n p ho
+  have h2 : 0 ≤ (cross n p).z ^ 2 := sq_nonneg _
+  linarith
+
+/-- the chord point lies in the plane of the arc -/
+theorem chord_in_plane (a b : V3 K) (t : K) : dot (cross a b) (chord a b t) = 0 := by
+  obtain ⟨ax, ay, az⟩ := a
+  obtain ⟨bx, b_y, bz⟩ := b
+  simp only [dot, cross, chord, vadd, smul]
+  ring
+
+/-- squared length of the chord point for unit end points -/
+theorem chord_normSq (a b : V3 K) (ha : dot a a = 1) (hb : dot b b = 1) (t : K) :
+    dot (chord a b t) (chord a b t) = 1 - 2 * t * (1 - t) * (1 - dot a b) := by
+  obtain ⟨ax, ay, az⟩ := a
+  obtain ⟨bx, b_y, bz⟩ := b
+  simp only [dot, chord, vadd, smul] at ha hb ⊢
+  linear_combination (1 - t) ^ 2 * ha + t ^ 2 * hb
+
+theorem chord_z (a b : V3 K) (t : K) : (chord a b t).z = (1 - t) * a.z + t * b.z := rfl
+
+/-- `z`-component of `(a × b) × p(t)`: an affine function of `t` -/
+theorem crossz_chord (a b : V3 K) (ha : dot a a = 1) (hb : dot b b = 1) (t : K) :
+    (cross (cross a b) (chord a b t)).z
+      = (b.z - dot a b * a.z) - t * ((1 - dot a b) * (a.z + b.z)) := by
+  obtain ⟨ax, ay, az⟩ := a
+  obtain ⟨bx, b_y, bz⟩ := b
+  simp only [dot, cross, chord, vadd, smul] at ha hb ⊢
+  linear_combination (bz * (1 - t)) * ha - (az * t) * hb
+
+/-- `d_a_max` written with the two "rises" -/
+theorem dAMax_eq (a b : V3 K) :
+    dAMax a b = (b.z - dot a b * a.z) / ((1 - dot a b) * (a.z + b.z)) := by
+  show (a.z * dot a b - b.z) / ((a.z + b.z) * (dot a b - 1)) = _
+  rw [show (a.z * dot a b - b.z) = -(b.z - dot a b * a.z) by ring,
+      show ((a.z + b.z) * (dot a b - 1)) = -((1 - dot a b) * (a.z + b.z)) by ring, neg_div_neg_eq]
+
+/-- **extreme_param_stationary**: for unit end points,
+    `z'(t)·‖p(t)‖² − z(t)·(p(t)·p'(t))` — the numerator of the derivative of `z(t)/‖p(t)‖` — is the
+    affine function `(z_b − z_a) + (1 − d)(z_a − t (z_a + z_b))`; it vanishes at the code's
+    `d_a_max`, and nowhere else. -/
+theorem extreme_param_stationary (a b : V3 K) (ha : dot a a = 1) (hb : dot b b = 1)
+    (hden : (1 - dot a b) * (a.z + b.z) ≠ 0) :
+    (∀ t, (b.z - a.z) * dot (chord a b t) (chord a b t)
+            - (chord a b t).z * dot (chord a b t) (vsub b a)
+          = (b.z - a.z) + (1 - dot a b) * (a.z - t * (a.z + b.z))) ∧
+    (b.z - a.z) + (1 - dot a b) * (a.z - dAMax a b * (a.z + b.z)) = 0 ∧
+    (∀ t, (b.z - a.z) + (1 - dot a b) * (a.z - t * (a.z + b.z)) = 0 → t = dAMax a b) := by
+  refine ⟨?_, ?_, ?_⟩
+  · intro t
+    obtain ⟨ax, ay, az⟩ := a
+    obtain ⟨bx, b_y, bz⟩ := b
+    simp only [dot, chord, vadd, vsub, smul] at ha hb ⊢
+    linear_combination ((bz - az) * (1 - t) ^ 2 + ((1 - t) * az + t * bz) * (1 - t)) * ha
+      + ((bz - az) * t ^ 2 - ((1 - t) * az + t * bz) * t) * hb
+  · rw [dAMax_eq]
+    have h := div_mul_cancel₀ (b.z - dot a b * a.z) hden
+    linear_combination (-1 : K) * h
+  · intro t ht
+    rw [dAMax_eq, eq_div_iff hden]
+    linear_combination -ht
+
+example : dAMax (⟨3/5, 0, 4/5⟩ : V3 ℚ) ⟨0, 3/5, 4/5⟩ = 1/2 := by
+  norm_num [dAMax, dot]
+
+/-- **apex_attains_bound**: the chord point at `d_a_max` attains the great circle's bound
+    `z² ‖n‖² = ‖p‖² (‖n‖² − n_z²)` (`n = a × b`): it IS the circle's northernmost or southernmost
+    direction. -/
+theorem apex_attains_bound (a b : V3 K) (ha : dot a a = 1) (hb : dot b b = 1)
+    (hden : (1 - dot a b) * (a.z + b.z) ≠ 0) :
+    (chord a b (dAMax a b)).z ^ 2 * dot (cross a b) (cross a b)
+      = dot (chord a b (dAMax a b)) (chord a b (dAMax a b))
+          * (dot (cross a b) (cross a b) - (cross a b).z ^ 2) := by
+  have hz : (cross (cross a b) (chord a b (dAMax a b))).z = 0 := by
+    rw [crossz_chord a b ha hb, dAMax_eq, div_mul_cancel₀ _ hden]; ring
+  have := circle_bound_defect (cross a b) (chord a b (dAMax a b)) (chord_in_plane a b _)
+  rw [hz] at this
+  linear_combination -this
+
+theorem normSq_nonneg (p : V3 K) : 0 ≤ dot p p := by
+  obtain ⟨x, y, z⟩ := p
+  simp only [dot]
+  exact add_nonneg (add_nonneg (mul_self_nonneg _) (mul_self_nonneg _)) (mul_self_nonneg _)
+
+/-- **arc_below_apex**: the chord point at `d_a_max` dominates EVERY point of the great circle
+    (in particular every point of the arc): `(z(t)/‖p(t)‖)² ≤ (z(t*)/‖p(t*)‖)²`, cross-multiplied. -/
+theorem arc_below_apex (a b : V3 K) (ha : dot a a = 1) (hb : dot b b = 1)
+    (hden : (1 - dot a b) * (a.z + b.z) ≠ 0) (hn : 0 < dot (cross a b) (cross a b)) (t : K) :
+    (chord a b t).z ^ 2 * dot (chord a b (dAMax a b)) (chord a b (dAMax a b))
+      ≤ (chord a b (dAMax a b)).z ^ 2 * dot (chord a b t) (chord a b t) := by
+  have h1 := circle_bound_hom (cross a b) (chord a b t) (chord_in_plane a b t)
+  have h2 := apex_attains_bound a b ha hb hden
+  have h3 := normSq_nonneg (chord a b (dAMax a b))
+  have h4 := normSq_nonneg (chord a b t)
+  set N := dot (cross a b) (cross a b)
+  set Ns := dot (chord a b (dAMax a b)) (chord a b (dAMax a b))
+  set Nt := dot (chord a b t) (chord a b t)
+  set zs := (chord a b (dAMax a b)).z
+  set zt := (chord a b t).z
+  set w := N - (cross a b).z ^ 2
+  -- zt² N ≤ Nt w ,  zs² N = Ns w  ⊢ zt² Ns ≤ zs² Nt
+  have : (zt ^ 2 * Ns) * N ≤ (zs ^ 2 * Nt) * N := by
+    calc (zt ^ 2 * Ns) * N = (zt ^ 2 * N) * Ns := by ring
+      _ ≤ (Nt * w) * Ns := mul_le_mul_of_nonneg_right h1 h3
+      _ = (Ns * w) * Nt := by ring
+      _ = (zs ^ 2 * N) * Nt := by rw [h2]
+      _ = (zs ^ 2 * Nt) * N := by ring
+  exact le_of_mul_le_mul_right this hn
+
+end arc
+
+/-! ### every point of the arc (over ℝ) -/
+section real
+
+/-- `z_b − (a·b) z_a`: sign of the rate of change of latitude when leaving `a` towards `b` -/
+def rise (a b : V3 ℝ) : ℝ := b.z - dot a b * a.z
+
+/-- sine of the latitude of the arc point with chord parameter `t` -/
+noncomputable def sinLat (a b : V3 ℝ) (t : ℝ) : ℝ :=
+  (chord a b t).z / Real.sqrt (dot (chord a b t) (chord a b t))
+
+theorem dot_comm (a b : V3 ℝ) : dot a b = dot b a := by
+  simp only [dot]; ring
+
+theorem cauchy_schwarz (a p : V3 ℝ) : (dot a p) ^ 2 ≤ dot a a * dot p p := by
+  obtain ⟨ax, ay, az⟩ := a
+  obtain ⟨px, py, pz⟩ := p
+  simp only [dot]
+  nlinarith [sq_nonneg (ax * py - ay * px), sq_nonneg (ay * pz - az * py), sq_nonneg (az * px - ax * pz)]
+
+theorem dot_le_norm (a p : V3 ℝ) (ha : dot a a = 1) : dot a p ≤ Real.sqrt (dot p p) := by
+  have h := cauchy_schwarz a p
+  rw [ha, one_mul] at h
+  exact le_trans (le_abs_self _) (Real.abs_le_sqrt h)
+
+theorem dot_a_chord (a b : V3 ℝ) (ha : dot a a = 1) (t : ℝ) :
+    dot a (chord a b t) = (1 - t) + t * dot a b := by
+  obtain ⟨ax, ay, az⟩ := a
+  obtain ⟨bx, b_y, bz⟩ := b
+  simp only [dot, chord, vadd, smul] at ha ⊢
+  linear_combination (1 - t) * ha
+
+theorem dot_b_chord (a b : V3 ℝ) (hb : dot b b = 1) (t : ℝ) :
+    dot b (chord a b t) = (1 - t) * dot a b + t := by
+  obtain ⟨ax, ay, az⟩ := a
+  obtain ⟨bx, b_y, bz⟩ := b
+  simp only [dot, chord, vadd, smul] at hb ⊢
+  linear_combination t * hb
+
+theorem chord_normSq_le_one (a b : V3 ℝ) (ha : dot a a = 1) (hb : dot b b = 1)
+    (hd : dot a b ≤ 1) (t : ℝ) (ht0 : 0 ≤ t) (ht1 : t ≤ 1) :
+    dot (chord a b t) (chord a b t) ≤ 1 := by
+  rw [chord_normSq a b ha hb]
+  have : 0 ≤ t * (1 - t) * (1 - dot a b) :=
+    mul_nonneg (mul_nonneg ht0 (by linarith)) (by linarith)
+  linarith
+
+theorem chord_normSq_pos (a b : V3 ℝ) (ha : dot a a = 1) (hb : dot b b = 1)
+    (hd1 : dot a b ≤ 1) (hd2 : -1 < dot a b) (t : ℝ) (ht0 : 0 ≤ t) (ht1 : t ≤ 1) :
+    0 < dot (chord a b t) (chord a b t) := by
+  rw [chord_normSq a b ha hb]
+  have h1 : t * (1 - t) ≤ 1 / 4 := by nlinarith [sq_nonneg (t - 1 / 2)]
+  have h2 : t * (1 - t) * (1 - dot a b) ≤ 1 / 4 * (1 - dot a b) :=
+    mul_le_mul_of_nonneg_right h1 (by linarith)
+  nlinarith
+
+/-- leaving `a` the latitude does not rise and `a` is not in the south: `a` dominates the arc -/
+theorem half_a (a b : V3 ℝ) (ha : dot a a = 1) (t : ℝ) (ht0 : 0 ≤ t)
+    (hr : rise a b ≤ 0) (hza : 0 ≤ a.z) :
+    (chord a b t).z ≤ a.z * Real.sqrt (dot (chord a b t) (chord a b t)) := by
+  have h1 : (chord a b t).z ≤ a.z * dot a (chord a b t) := by
+    rw [chord_z, dot_a_chord a b ha]
+    unfold rise at hr
+    nlinarith [mul_nonneg ht0 (neg_nonneg.mpr hr)]
+  exact le_trans h1 (mul_le_mul_of_nonneg_left (dot_le_norm a _ ha) hza)
+
+theorem half_b (a b : V3 ℝ) (hb : dot b b = 1) (t : ℝ) (ht1 : t ≤ 1)
+    (hr : rise b a ≤ 0) (hzb : 0 ≤ b.z) :
+    (chord a b t).z ≤ b.z * Real.sqrt (dot (chord a b t) (chord a b t)) := by
+  have h1 : (chord a b t).z ≤ b.z * dot b (chord a b t) := by
+    rw [chord_z, dot_b_chord a b hb]
+    unfold rise at hr
+    rw [dot_comm b a] at hr
+    nlinarith [mul_nonneg (sub_nonneg.mpr ht1) (neg_nonneg.mpr hr)]
+  exact le_trans h1 (mul_le_mul_of_nonneg_left (dot_le_norm b _ hb) hzb)
+
+/-- on an arc shorter than half a turn the latitude cannot fall when leaving the southern end
+    AND fall when arriving at the northern end -/
+theorem no_double_fall (za zb d : ℝ) (hd : d ^ 2 < 1) (h1 : zb - d * za ≤ 0) (h2 : 0 < za - d * zb)
+    (hza : za < 0) (hzb : 0 < zb) : False := by
+  have hd0 : d < 0 := by
+    by_contra hc
+    have : d * za ≤ 0 := mul_nonpos_of_nonneg_of_nonpos (not_lt.mp hc) hza.le
+    linarith
+  have h3 : 0 ≤ d * (zb - d * za) := mul_nonneg_of_nonpos_of_nonpos hd0.le h1
+  have h4 : za * (1 - d ^ 2) < 0 := mul_neg_of_neg_of_pos hza (by linarith)
+  nlinarith
+
+/-- **arc_le_endpoints**: when the great circle's northernmost point is NOT strictly inside the arc
+    (`¬ (rise a b > 0 ∧ rise b a > 0)`), every point of the arc is at most as far north as the
+    more northern end point: `z(t) ≤ max(z_a, z_b)·‖p(t)‖` for all `t ∈ [0, 1]`. -/
+theorem arc_le_endpoints (a b : V3 ℝ) (ha : dot a a = 1) (hb : dot b b = 1)
+    (hd1 : dot a b < 1) (hd2 : -1 < dot a b) (t : ℝ) (ht0 : 0 ≤ t) (ht1 : t ≤ 1)
+    (hno : ¬ (0 < rise a b ∧ 0 < rise b a)) :
+    (chord a b t).z ≤ max a.z b.z * Real.sqrt (dot (chord a b t) (chord a b t)) := by
+  set s := Real.sqrt (dot (chord a b t) (chord a b t)) with hs
+  have hs0 : 0 ≤ s := Real.sqrt_nonneg _
+  have hs1 : s ≤ 1 := by
+    rw [hs]; exact Real.sqrt_le_one.mpr (chord_normSq_le_one a b ha hb hd1.le t ht0 ht1) |>.trans (le_refl _)
+  have hz : (chord a b t).z ≤ max a.z b.z := by
+    rw [chord_z]
+    have h1 := le_max_left a.z b.z
+    have h2 := le_max_right a.z b.z
+    nlinarith [mul_le_mul_of_nonneg_left h1 (sub_nonneg.mpr ht1), mul_le_mul_of_nonneg_left h2 ht0]
+  have hdsq : (dot a b) ^ 2 < 1 := by nlinarith
+  by_cases hm : max a.z b.z ≤ 0
+  · have : max a.z b.z * 1 ≤ max a.z b.z * s := mul_le_mul_of_nonpos_left hs1 hm
+    linarith
+  · have hm' : 0 < max a.z b.z := not_le.mp hm
+    have fromA : 0 ≤ a.z → rise a b ≤ 0 → (chord a b t).z ≤ max a.z b.z * s := fun hza hr =>
+      le_trans (half_a a b ha t ht0 hr hza) (mul_le_mul_of_nonneg_right (le_max_left _ _) hs0)
+    have fromB : 0 ≤ b.z → rise b a ≤ 0 → (chord a b t).z ≤ max a.z b.z * s := fun hzb hr =>
+      le_trans (half_b a b hb t ht1 hr hzb) (mul_le_mul_of_nonneg_right (le_max_right _ _) hs0)
+    rcases not_and_or.mp hno with h | h
+    · have hr : rise a b ≤ 0 := not_lt.mp h
+      by_cases hza : 0 ≤ a.z
+      · exact fromA hza hr
+      · have hza' : a.z < 0 := not_le.mp hza
+        have hzb : 0 < b.z := by
+          rcases le_max_iff.mp (le_of_lt hm') with h0 | h0
+          · exact absurd h0 hza
+          · rcases lt_or_eq_of_le h0 with h1 | h1
+            · exact h1
+            · exfalso
+              have : max a.z b.z = 0 := by rw [← h1]; exact max_eq_right (by linarith)
+              linarith
+        have hr2 : rise b a ≤ 0 := by
+          by_contra hc
+          have hc' : 0 < rise b a := not_le.mp hc
+          unfold rise at hr hc'
+          rw [dot_comm b a] at hc'
+          exact no_double_fall a.z b.z (dot a b) hdsq hr hc' hza' hzb
+        exact fromB hzb.le hr2
+    · have hr : rise b a ≤ 0 := not_lt.mp h
+      by_cases hzb : 0 ≤ b.z
+      · exact fromB hzb hr
+      · have hzb' : b.z < 0 := not_le.mp hzb
+        have hza : 0 < a.z := by
+          rcases le_max_iff.mp (le_of_lt hm') with h0 | h0
+          · rcases lt_or_eq_of_le h0 with h1 | h1
+            · exact h1
+            · exfalso
+              have : max a.z b.z = 0 := by rw [← h1]; exact max_eq_left (by linarith)
+              linarith
+          · exact absurd h0 hzb
+        have hr2 : rise a b ≤ 0 := by
+          by_contra hc
+          have hc' : 0 < rise a b := not_le.mp hc
+          unfold rise at hr hc'
+          rw [dot_comm b a] at hr
+          exact no_double_fall b.z a.z (dot a b) hdsq hr hc' hzb' hza
+        exact fromA hza.le hr2
+
+/-- reflection in the equatorial plane -/
+def flipz (a : V3 ℝ) : V3 ℝ := ⟨a.x, a.y, -a.z⟩
+
+theorem flipz_dot (a b : V3 ℝ) : dot (flipz a) (flipz b) = dot a b := by
+  simp only [dot, flipz]; ring
+theorem flipz_chord (a b : V3 ℝ) (t : ℝ) : chord (flipz a) (flipz b) t = flipz (chord a b t) := by
+  simp only [chord, vadd, smul, flipz, V3.mk.injEq]
+  refine ⟨trivial, trivial, ?_⟩
+  ring
+theorem flipz_rise (a b : V3 ℝ) : rise (flipz a) (flipz b) = -rise a b := by
+  simp only [rise, flipz_dot]; simp only [flipz]; ring
+theorem flipz_dAMax (a b : V3 ℝ) : dAMax (flipz a) (flipz b) = dAMax a b := by
+  rw [dAMax_eq, dAMax_eq, flipz_dot]
+  simp only [flipz]
+  rw [show (-b.z - dot a b * -a.z) = -(b.z - dot a b * a.z) by ring,
+      show ((1 - dot a b) * (-a.z + -b.z)) = -((1 - dot a b) * (a.z + b.z)) by ring, neg_div_neg_eq]
+theorem flipz_sinLat (a b : V3 ℝ) (t : ℝ) : sinLat (flipz a) (flipz b) t = -sinLat a b t := by
+  unfold sinLat
+  rw [flipz_chord, flipz_dot]
+  simp only [flipz]; ring
+
+/-- **arc_ge_endpoints**: when the southernmost point of the great circle is not strictly inside
+    the arc, every arc point is at least as far north as the more southern end point. -/
+theorem arc_ge_endpoints (a b : V3 ℝ) (ha : dot a a = 1) (hb : dot b b = 1)
+    (hd1 : dot a b < 1) (hd2 : -1 < dot a b) (t : ℝ) (ht0 : 0 ≤ t) (ht1 : t ≤ 1)
+    (hno : ¬ (rise a b < 0 ∧ rise b a < 0)) :
+    min a.z b.z * Real.sqrt (dot (chord a b t) (chord a b t)) ≤ (chord a b t).z := by
+  have h := arc_le_endpoints (flipz a) (flipz b) (by rw [flipz_dot]; exact ha)
+    (by rw [flipz_dot]; exact hb) (by rw [flipz_dot]; exact hd1) (by rw [flipz_dot]; exact hd2)
+    t ht0 ht1 (by rw [flipz_rise, flipz_rise]; intro hc; exact hno ⟨by linarith [hc.1], by linarith [hc.2]⟩)
+  rw [flipz_chord, flipz_dot] at h
+  simp only [flipz] at h
+  rw [max_neg_neg] at h
+  linarith
+
+theorem rise_add (a b : V3 ℝ) : rise a b + rise b a = (1 - dot a b) * (a.z + b.z) := by
+  simp only [rise, dot_comm b a]; ring
+
+theorem cross_normSq (a b : V3 ℝ) (ha : dot a a = 1) (hb : dot b b = 1) :
+    dot (cross a b) (cross a b) = 1 - (dot a b) ^ 2 := by
+  obtain ⟨ax, ay, az⟩ := a
+  obtain ⟨bx, b_y, bz⟩ := b
+  simp only [dot, cross] at ha hb ⊢
+  linear_combination (bx * bx + b_y * b_y + bz * bz) * ha + hb
+
+theorem sinLat_le_of_z_le (a b : V3 ℝ) (t m : ℝ)
+    (hN : 0 < dot (chord a b t) (chord a b t))
+    (h : (chord a b t).z ≤ m * Real.sqrt (dot (chord a b t) (chord a b t))) : sinLat a b t ≤ m := by
+  unfold sinLat
+  rw [div_le_iff₀ (Real.sqrt_pos.mpr hN)]
+  exact h
+
+/-- **extreme_sin_encloses_max** — the exact `extreme_gca_latitude(…, "max")`, in sine-of-latitude
+    form, dominates EVERY point of the arc: if `d_a_max ∈ (0, 1)` the candidate point joins the
+    end points, otherwise the end points alone suffice. -/
+theorem extreme_sin_encloses_max (a b : V3 ℝ) (ha : dot a a = 1) (hb : dot b b = 1)
+    (hd1 : dot a b < 1) (hd2 : -1 < dot a b) (τ : ℝ) (h0 : 0 ≤ τ) (h1 : τ ≤ 1) :
+    sinLat a b τ ≤
+      (if 0 < dAMax a b ∧ dAMax a b < 1 then max (sinLat a b (dAMax a b)) (max a.z b.z)
+       else max a.z b.z) := by
+  have hNτ := chord_normSq_pos a b ha hb hd1.le hd2 τ h0 h1
+  by_cases hap : 0 < rise a b ∧ 0 < rise b a
+  · -- the apex is strictly inside the arc
+    have hD : 0 < (1 - dot a b) * (a.z + b.z) := by rw [← rise_add]; linarith [hap.1, hap.2]
+    have ht : 0 < dAMax a b ∧ dAMax a b < 1 := by
+      rw [dAMax_eq]
+      refine ⟨div_pos hap.1 hD, (div_lt_one hD).mpr ?_⟩
+      show rise a b < _
+      rw [← rise_add]; linarith [hap.2]
+    rw [if_pos ht]
+    refine le_trans ?_ (le_max_left _ _)
+    set ts := dAMax a b with hts
+    have hNs := chord_normSq_pos a b ha hb hd1.le hd2 ts ht.1.le ht.2.le
+    have hzs : 0 ≤ (chord a b ts).z := by
+      have e : (chord a b ts).z * ((1 - dot a b) * (a.z + b.z))
+          = a.z ^ 2 + b.z ^ 2 - 2 * dot a b * a.z * b.z := by
+        rw [chord_z, hts, dAMax_eq]
+        have hc := div_mul_cancel₀ (b.z - dot a b * a.z) (ne_of_gt hD)
+        linear_combination (b.z - a.z) * hc
+      have hnum : 0 ≤ a.z ^ 2 + b.z ^ 2 - 2 * dot a b * a.z * b.z := by
+        have hdsq : 0 ≤ 1 - (dot a b) ^ 2 := by nlinarith
+        nlinarith [sq_nonneg (a.z - dot a b * b.z), mul_nonneg hdsq (sq_nonneg b.z)]
+      by_contra hc
+      have : (chord a b ts).z * ((1 - dot a b) * (a.z + b.z)) < 0 :=
+        mul_neg_of_neg_of_pos (not_le.mp hc) hD
+      linarith
+    have hn : 0 < dot (cross a b) (cross a b) := by
+      rw [cross_normSq a b ha hb]; nlinarith
+    have key := arc_below_apex a b ha hb (ne_of_gt hD) hn τ
+    unfold sinLat
+    by_cases hzτ : (chord a b τ).z ≤ 0
+    · exact le_trans (div_nonpos_of_nonpos_of_nonneg hzτ (Real.sqrt_nonneg _))
+        (div_nonneg hzs (Real.sqrt_nonneg _))
+    · have hzτ' : 0 ≤ (chord a b τ).z := (not_le.mp hzτ).le
+      rw [div_le_div_iff₀ (Real.sqrt_pos.mpr hNτ) (Real.sqrt_pos.mpr hNs)]
+      have e1 : (chord a b τ).z * Real.sqrt (dot (chord a b ts) (chord a b ts))
+          = Real.sqrt ((chord a b τ).z ^ 2 * dot (chord a b ts) (chord a b ts)) := by
+        rw [Real.sqrt_mul (sq_nonneg _), Real.sqrt_sq hzτ']
+      have e2 : (chord a b ts).z * Real.sqrt (dot (chord a b τ) (chord a b τ))
+          = Real.sqrt ((chord a b ts).z ^ 2 * dot (chord a b τ) (chord a b τ)) := by
+        rw [Real.sqrt_mul (sq_nonneg _), Real.sqrt_sq hzs]
+      rw [e1, e2]
+      exact Real.sqrt_le_sqrt key
+  · have hU := sinLat_le_of_z_le a b τ _ hNτ (arc_le_endpoints a b ha hb hd1 hd2 τ h0 h1 hap)
+    split
+    · exact le_trans hU (le_max_right _ _)
+    · exact hU
+
+/-- **extreme_sin_encloses_min** — the same for `"min"`. -/
+theorem extreme_sin_encloses_min (a b : V3 ℝ) (ha : dot a a = 1) (hb : dot b b = 1)
+    (hd1 : dot a b < 1) (hd2 : -1 < dot a b) (τ : ℝ) (h0 : 0 ≤ τ) (h1 : τ ≤ 1) :
+    (if 0 < dAMax a b ∧ dAMax a b < 1 then min (sinLat a b (dAMax a b)) (min a.z b.z)
+       else min a.z b.z) ≤ sinLat a b τ := by
+  have h := extreme_sin_encloses_max (flipz a) (flipz b) (by rw [flipz_dot]; exact ha)
+    (by rw [flipz_dot]; exact hb) (by rw [flipz_dot]; exact hd1) (by rw [flipz_dot]; exact hd2) τ h0 h1
+  rw [flipz_dAMax, flipz_sinLat, flipz_sinLat] at h
+  simp only [flipz] at h
+  rw [max_neg_neg, max_neg_neg] at h
+  split at h
+  · rename_i hc; rw [if_pos hc]; linarith
+  · rename_i hc; rw [if_neg hc]; linarith
+
+/-- the exact-arithmetic instance of the numeric runtime: real `√`, any monotone `asin`, no
+    tolerance snapping -/
+noncomputable def realFn (f : ℝ → ℝ) : Fn ℝ :=
+  { sqrt := Real.sqrt, asin := f, abs := fun x => |x|, close := fun _ _ => false, tol := 0, eps := 0,
+    normalize := id, samePt := fun _ _ => false }
+
+theorem z_sq_le_normSq (p : V3 ℝ) : p.z ^ 2 ≤ dot p p := by
+  obtain ⟨x, y, z⟩ := p
+  simp only [dot]; nlinarith [mul_self_nonneg x, mul_self_nonneg y]
+
+theorem latOfN_unit (f : ℝ → ℝ) (hp : ℝ) (a : V3 ℝ) (ha : dot a a = 1) :
+    latOfN (realFn f) hp a = f a.z := by
+  have hz : |a.z| ≤ 1 := by
+    have := z_sq_le_normSq a
+    rw [ha] at this
+    exact abs_le_one_iff_mul_self_le_one.mpr (by nlinarith)
+  have e : a.x * a.x + a.y * a.y + a.z * a.z = 1 := ha
+  simp only [latOfN, realFn, ha, Real.sqrt_one, div_one, e, abs_one, sub_zero]
+  rw [if_neg (not_lt.mpr hz)]
+
+theorem sinLat_abs_le_one (a b : V3 ℝ) (t : ℝ) (hN : 0 < dot (chord a b t) (chord a b t)) :
+    -1 ≤ sinLat a b t ∧ sinLat a b t ≤ 1 := by
+  have h := z_sq_le_normSq (chord a b t)
+  have hs := Real.sqrt_pos.mpr hN
+  have habs : |(chord a b t).z| ≤ Real.sqrt (dot (chord a b t) (chord a b t)) := Real.abs_le_sqrt h
+  unfold sinLat
+  constructor
+  · rw [le_div_iff₀ hs]; linarith [neg_abs_le (chord a b t).z]
+  · rw [div_le_iff₀ hs]; linarith [le_abs_self (chord a b t).z]
+
+theorem clipK_id (x : ℝ) (h : -1 ≤ x ∧ x ≤ 1) : clipK x (-1) 1 = x := by
+  unfold clipK
+  rw [if_neg (not_lt.mpr h.1), if_neg (not_lt.mpr h.2)]
+
+/-- **extreme_encloses_arc** — the transcription of `extreme_gca_latitude` itself, run in exact
+    arithmetic (`realFn`: real square root, any monotone inverse sine `f`, no tolerance snapping),
+    encloses the latitude `f(sin lat)` of EVERY point of EVERY arc shorter than half a turn:
+    `extremeLat … "min" ≤ lat(p(τ)) ≤ extremeLat … "max"` for all `τ ∈ [0, 1]`. -/
+theorem extreme_encloses_arc (f : ℝ → ℝ) (hf : Monotone f) (hp : ℝ) (a b : V3 ℝ)
+    (ha : dot a a = 1) (hb : dot b b = 1) (hd1 : dot a b < 1) (hd2 : -1 < dot a b)
+    (τ : ℝ) (h0 : 0 ≤ τ) (h1 : τ ≤ 1) :
+    extremeLat (realFn f) hp false a b ≤ f (sinLat a b τ) ∧
+    f (sinLat a b τ) ≤ extremeLat (realFn f) hp true a b := by
+  have hmax := hf (extreme_sin_encloses_max a b ha hb hd1 hd2 τ h0 h1)
+  have hmin := hf (extreme_sin_encloses_min a b ha hb hd1 hd2 τ h0 h1)
+  have hl1 := latOfN_unit f hp a ha
+  have hl2 := latOfN_unit f hp b hb
+  have hclose : ((realFn f).close (dAMax a b) 0 || (realFn f).close (dAMax a b) 1) = false := rfl
+  unfold extremeLat
+  simp only [hclose, Bool.false_eq_true, if_false, hl1, hl2]
+  by_cases ht : 0 < dAMax a b ∧ dAMax a b < 1
+  · have hN := chord_normSq_pos a b ha hb hd1.le hd2 _ ht.1.le ht.2.le
+    have hc : clipK ((chord a b (dAMax a b)).z /
+        (realFn f).sqrt (dot (chord a b (dAMax a b)) (chord a b (dAMax a b)))) (-1) 1
+        = sinLat a b (dAMax a b) := clipK_id _ (sinLat_abs_le_one a b _ hN)
+    rw [if_pos ht] at hmax hmin
+    simp only [if_pos ht, hc, max3, min3, maxK_eq, minK_eq]
+    show min (min (f (sinLat a b (dAMax a b))) (f a.z)) (f b.z) ≤ _ ∧ _ ≤ max (max (f (sinLat a b (dAMax a b))) (f a.z)) (f b.z)
+    rw [hf.map_max, hf.map_max] at hmax
+    rw [hf.map_min, hf.map_min] at hmin
+    rw [max_assoc, min_assoc]
+    exact ⟨hmin, hmax⟩
+  · rw [if_neg ht] at hmax hmin
+    simp only [if_neg ht, maxK_eq, minK_eq]
+    rw [hf.map_max] at hmax
+    rw [hf.map_min] at hmin
+    exact ⟨hmin, hmax⟩
+
+/-- non-vacuity: the arc from `(3/5, 0, 4/5)` to `(0, 3/5, 4/5)` bulges poleward of both ends
+    (`d_a_max = 1/2 ∈ (0, 1)`), and the hypotheses hold -/
+example : dot (⟨3/5, 0, 4/5⟩ : V3 ℝ) ⟨3/5, 0, 4/5⟩ = 1 ∧ dot (⟨0, 3/5, 4/5⟩ : V3 ℝ) ⟨0, 3/5, 4/5⟩ = 1 ∧
+    dot (⟨3/5, 0, 4/5⟩ : V3 ℝ) ⟨0, 3/5, 4/5⟩ < 1 ∧ -1 < dot (⟨3/5, 0, 4/5⟩ : V3 ℝ) ⟨0, 3/5, 4/5⟩ ∧
+    0 < rise (⟨3/5, 0, 4/5⟩ : V3 ℝ) ⟨0, 3/5, 4/5⟩ := by
+  norm_num [dot, rise]
+
+end real
+
+/-! ### capstone: the repaired normal-face loop encloses every point of every edge -/
+section capstone
+
+theorem hasLat_between (b : Box ℝ) (x y w : ℝ) (hx : b.HasLat x) (hy : b.HasLat y)
+    (h1 : x ≤ w) (h2 : w ≤ y) : b.HasLat w := by
+  obtain ⟨p, hp, hxin⟩ := hx
+  obtain ⟨q, hq, hyin⟩ := hy
+  rw [hp] at hq
+  cases hq
+  exact ⟨p, hp, ⟨le_trans hxin.1 h1, le_trans h2 hyin.2⟩⟩
+
+/-- **lat_encloses_every_arc_point**: run the repaired normal-face loop on ANY list of edges whose
+    summaries carry the exact `extreme_gca_latitude` values; then for every edge (unit end points,
+    shorter than half a turn) and every chord parameter `τ ∈ [0, 1]` the latitude of the arc point
+    lies in `[lat_min, lat_max]`.  (Corners are the cases `τ = 0, 1`; they are also covered,
+    together with their longitudes, by `lat_encloses_nodes`.) -/
+theorem lat_encloses_every_arc_point (f : ℝ → ℝ) (hf : Monotone f) (c : Consts ℝ)
+    (close : ℝ → ℝ → Bool) (north : Bool) (edges : List (Edge ℝ)) (e : Edge ℝ) (he : e ∈ edges)
+    (ha : dot e.a e.a = 1) (hb : dot e.b e.b = 1) (hd1 : dot e.a e.b < 1) (hd2 : -1 < dot e.a e.b)
+    (τ : ℝ) (h0 : 0 ≤ τ) (h1 : τ ≤ 1) :
+    (normalLoop c close .repaired (edges.map (summ (realFn f) c.halfPi north))).HasLat
+      (f (sinLat e.a e.b τ)) := by
+  have hmem : summ (realFn f) c.halfPi north e ∈ edges.map (summ (realFn f) c.halfPi north) :=
+    List.mem_map_of_mem he
+  have h := lat_encloses_nodes c close _ _ hmem
+  have hb' := extreme_encloses_arc f hf c.halfPi e.a e.b ha hb hd1 hd2 τ h0 h1
+  exact hasLat_between _ _ _ _ h.2.2 h.2.1 hb'.1 hb'.2
+
+end capstone
 
 end UxVerif.C13
